@@ -33,6 +33,8 @@ def oracle(ctx, cases):
             probes += valcases.boundary_values(r, v, 30)
         except Exception:
             pass
+        if isinstance(v, float):
+            probes += [v * (1 + 9e-10), v * (1 - 9e-10), v + 9e-10, v - 9e-10]
         for base in [v] + gens[:1]:
             ps = gen_value.perturb(base, ctx.rnd, zoo_n=1)
             probes += ctx.rnd.sample(ps, min(len(ps), ctx.n(10, 30)))
@@ -58,6 +60,9 @@ def run(ctx):
     # tight scalar corpus: bounds coinciding with the substituted value
     for s, w in valcases.scalar_corpus():
         cases.append(substcorr.SubCase(s, w, w, "corpus"))
+    from d42 import schema
+    cases.append(substcorr.SubCase(schema.float(1.0), 1.0, 1.0000000009, "corpus"))
+    cases.append(substcorr.SubCase(schema.dict({"x": schema.float(2.5).max(3.0)}), {"x": 2.5}, {"x": 2.5000000012}, "corpus"))
     for c in cases:
         substcorr.run_real(c)
     oracle(ctx, cases)
